@@ -10,7 +10,8 @@ import traceback
 
 
 class RestateCtx:
-    def __init__(self, real, owner, selected, why):
+    def __init__(self, real, owner, selected, why, keep=None):
+        object.__setattr__(self, "_keep", keep)      # optional predicate on (rule id, construct): restate only these instances
         object.__setattr__(self, "_real", real)
         object.__setattr__(self, "_owner", owner)
         object.__setattr__(self, "_sel", selected)
@@ -39,6 +40,8 @@ class RestateCtx:
         m = self._map(rule)
         if m is None:
             return ok
+        if self._keep is not None and rule in self._sel and not self._keep(rule, construct):
+            return ok
         self._seen.add(rule)
         return self._real.ob(m, desc, ok, fn, construct, where, detail)
 
@@ -53,11 +56,11 @@ class RestateCtx:
         pass
 
 
-def run_restated(ctx, plan):
+def run_restated(ctx, plan, keep=None):
     """plan: list of (owner pid, {rule id: one-line reason why it is a necessary condition of this property})."""
     for owner, sel in plan:
         mod = importlib.import_module("mtsa.rules.%s" % owner.lower())
-        px = RestateCtx(ctx, owner, set(sel), sel)
+        px = RestateCtx(ctx, owner, set(sel), sel, keep)
         try:
             mod.run(px)
         except Exception as e:  # fail closed
@@ -67,3 +70,47 @@ def run_restated(ctx, plan):
         for rid in sel:
             if rid not in px._seen:
                 ctx.lost("%s.%s" % (ctx.pid, rid), "the restated clause %s produced no instance on this tree" % rid)
+
+
+def used_float_methods(ctx, roots, shallow=()):
+    """Names of the scalar trait's methods called (transitively, through crate-local callees and closures) from the given bodies; of a
+    `shallow` body only its own calls (and its closures') count — its callees are other properties' kernels."""
+    f, R = ctx.facts, ctx.roles
+    seen, st, used = set(), [b.key for b in roots if b is not None], set()
+    for b in shallow:
+        if b is None:
+            continue
+        for body in [b] + list(f.closures_of(b.path)):
+            for _bi, t in body.calls():
+                c = t.get("callee") or {}
+                if str(c.get("trait") or "").endswith("MomTropFloat"):
+                    used.add(c.get("name"))
+    while st:
+        k = st.pop()
+        if k in seen or k not in f.mir:
+            continue
+        seen.add(k)
+        b = f.mir[k]
+        for _bi, t in b.calls():
+            c = t.get("callee") or {}
+            if str(c.get("trait") or "").endswith("MomTropFloat"):
+                used.add(c.get("name"))
+        for _bi, _t, cb in R.local_callees(b):
+            st.append(cb.key)
+        for cl in f.closures_of(b.path):
+            st.append(cl.key)
+    return used
+
+
+def restate_f64_primitives(ctx, roots, what, shallow=()):
+    """C20-a restated for exactly the scalar operations that the code behind this property calls: for the f64 instantiation each of them
+    is the like-named std function.  (A change to a primitive this property's code never calls is not this property's business.)"""
+    try:
+        used = used_float_methods(ctx, [r() if callable(r) else r for r in roots], [r() if callable(r) else r for r in shallow])
+    except Exception as e:     # a role could not be located: the owning rules report it
+        return ctx.note("%s.C20-a: restated clause skipped — %s" % (ctx.pid, e))
+    if not used:
+        return ctx.note("%s.C20-a: no scalar-trait call reachable from %s" % (ctx.pid, what))
+    ctx.note("%s.C20-a: scalar operations reachable from %s: %s" % (ctx.pid, what, sorted(used)))
+    run_restated(ctx, [("C20", {"C20-a": "for T = f64 the scalar operations %s is written in (%s) are std's" % (what, ", ".join(sorted(used)))})],
+                 keep=lambda rule, construct: isinstance(construct, str) and construct.startswith("f64-method:") and construct.split(":", 1)[1] in used)
